@@ -4,6 +4,7 @@ from ural.utils import SplitResult, urlunsplit, urlsplit, unsplit_netloc
 from ural.infer_redirection import infer_redirection as resolve
 from ural.ensure_protocol import ensure_protocol
 from ural.tld import split_suffix
+from ural.quote import upper_quoted
 
 LANG_QUERY_KEYS = ("gl", "hl")
 
@@ -97,6 +98,12 @@ def fingerprint_url(url, unsplit=True, strip_suffix=False, platform_aware=False)
             # nothing would be left of it
             if r is not None and r[0]:
                 hostname, _ = r
+
+    # NOTE: lowercasing the input is not enough: unquoting can reveal uppercase
+    # letters afterwards ("%C3%89", "%50")
+    path = upper_quoted(path.lower())
+    query = upper_quoted(query.lower())
+    fragment = upper_quoted(fragment.lower())
 
     # Dropping port
     port = None
